@@ -1,5 +1,6 @@
 import YaegiVerif.Proofs.C03Decl
 import YaegiVerif.Proofs.C03Const
+import YaegiVerif.Proofs.C03Walk
 import YaegiVerif.Proofs.C03Block
 import YaegiVerif.Model.ConstClass
 /- C03: declarations with a declared integer type, both directions. The interpreter model has exactly the outcome of
@@ -135,43 +136,35 @@ theorem evalY_forced_irrelevant (env : Env) (hp2 : env.pass2 = false) (forced : 
   | bool _ => intro h; simp [declShape] at h
   | str _ => intro h; simp [declShape] at h
 
-/-- the pushed-down integer type plays no part on either kind of initialiser -/
-theorem evalY_typed_forced (k : IKind) (e : CExpr) (hs : declShape e = true ∨ ufrag e = true) :
-    evalY F0 { iota := 0 } (some (.t (.i k))) e = evalY F0 { iota := 0 } none e := by
-  rcases hs with hs | hs
-  · exact evalY_forced_irrelevant { iota := 0 } rfl _ e hs
-  · exact (evalY_ufrag_indep e hs { iota := 0 } (some (.t (.i k)))
-      (fun f hf => by injection hf with hf; subst hf; rfl)).1
+theorem numForced_int (k : IKind) : NumForced (some (.t (.i k))) :=
+  fun f hf => by injection hf with hf; subst hf; rfl
 
-theorem shape_intShape (e : CExpr) (hs : declShape e = true ∨ ufrag e = true) : intShape e = true := by
-  rcases hs with hs | hs
-  · exact declShape_intShape e hs
-  · exact ufrag_intShape e hs
-
-/-- **`var c T = e` at package level**, `T` an integer type, `e` an untyped operator expression (`ufrag`) or an
-    initialiser of `declShape`: the declaration has exactly the outcome of the specification — the value when the
-    constant is representable in `T` (or already of type `T`), a compile error otherwise, and a compile error when
-    the specification rejects `e` itself. -/
-theorem typed_var_decl_exact (k : IKind) (e : CExpr) (hs : declShape e = true ∨ ufrag e = true) (hl : litBound e = true) :
+/-- **`var c T = e` at package level**, `T` an integer type, `e` any expression of the integer fragment: the
+    declaration has exactly the outcome of the specification — the value when the constant is representable in `T`
+    (or already of type `T`), a compile error otherwise (a typed constant of another type included: the operator node
+    takes the type of its typed operand, not the declared one, 2988c87), and a compile error when the specification
+    rejects `e` itself. -/
+theorem typed_var_decl_exact (k : IKind) (e : CExpr) (hi : intShape e = true) :
     varDeclY F0 (some (.i k)) e = Spec.declGo 0 (some (.i k)) e := by
-  have hi := shape_intShape e hs
   simp only [varDeclY, unmodelled_none, Spec.declGo]
-  rw [evalY_typed_forced k e hs]
-  rcases (evalY_int_rel { iota := 0 } rfl e hi hl).inv with ⟨n, gv, hr, hg, hinv⟩ | ⟨hr, hg⟩
+  rw [evalY_int_indep e hi { iota := 0 } _ (numForced_int k)]
+  rcases (evalY_int_rel { iota := 0 } rfl e hi).inv with ⟨n, gv, hr, hg, hinv⟩ | ⟨hr, hg⟩
   · have hg' : Spec.evalGo 0 e = .ok gv := hg
-    rw [hr, hg']
+    have hr' : evalY F0 { iota := 0 } none e = .ok n := hr
+    rw [hr', hg']
     simp only [bind_ok]
     exact assign_exact n gv hinv k
   · have hg' : Spec.evalGo 0 e = .reject := hg
-    rw [hr, hg']; rfl
+    have hr' : evalY F0 { iota := 0 } none e = .reject := hr
+    rw [hr', hg']; rfl
 
 /-- **`var c = e` at package level**, any expression of the integer fragment: exactly the outcome of the
     specification (the value with its default type — `int32` for a rune constant since b080dc4 —, a compile error when
     the constant does not fit its default type or `e` is rejected) -/
-theorem var_decl_exact (e : CExpr) (hi : intShape e = true) (hl : litBound e = true) :
+theorem var_decl_exact (e : CExpr) (hi : intShape e = true) :
     varDeclY F0 none e = Spec.declGo 0 none e := by
   simp only [varDeclY, unmodelled_none, Spec.declGo, F0_chk, Expected.C03.checkFacts, if_true]
-  rcases (evalY_int_rel { iota := 0 } rfl e hi hl).inv with ⟨n, gv, hr, hg, hinv⟩ | ⟨hr, hg⟩
+  rcases (evalY_int_rel { iota := 0 } rfl e hi).inv with ⟨n, gv, hr, hg, hinv⟩ | ⟨hr, hg⟩
   · have hg' : Spec.evalGo 0 e = .ok gv := hg
     rw [hr, hg']
     simp only [bind_ok, defaultTypeY_int n gv hinv]
@@ -181,25 +174,24 @@ theorem var_decl_exact (e : CExpr) (hi : intShape e = true) (hl : litBound e = t
   · have hg' : Spec.evalGo 0 e = .reject := hg
     rw [hr, hg']; rfl
 
-/-- **`const c T = e`, both directions**, `T` any integer type, `e` an untyped operator expression, for every `iota`
-    and wherever the spec stands in a block: when Go accepts the declaration all three walks and the use yield Go's
-    value (`SpecOk`); when Go rejects it the first walk of the interpreter rejects it. -/
-theorem typed_const_decl_exact (i : Nat) (k : IKind) (e : CExpr) (hs : ufrag e = true) (hl : litBound e = true) :
+/-- **`const c T = e`, both directions**, `T` any integer type, `e` any expression of the integer fragment, for every
+    `iota` and wherever the spec stands in a block: when Go accepts the declaration all three walks and the use yield
+    Go's value (`SpecOk`); when Go rejects it the first walk of the interpreter rejects it. -/
+theorem typed_const_decl_exact (i : Nat) (k : IKind) (e : CExpr) (hi : intShape e = true) :
     (∀ v, Spec.declGo i (some (.i k)) e = .ok v → SpecOk F0 i (some (.i k)) e) ∧
     (Spec.declGo i (some (.i k)) e = .reject → ∀ first, constGtaY F0 i first (some (.i k)) e = .reject) := by
-  have hi := ufrag_intShape e hs
-  have hnum : NumForced (some (.t (.i k))) := fun f hf => by injection hf with hf; subst hf; rfl
+  have hnum := numForced_int k
   have hgta : ∀ first, constGtaY F0 i first (some (.i k)) e =
       (evalY F0 { iota := i } none e).bind fun r1 => assignY F0 r1 (.i k) := by
     intro first
     simp only [constGtaY, unmodelled_none]
-    rw [(evalY_ufrag_indep e hs { iota := i, inConst := true, noFrame := first } _ hnum).1]
+    rw [evalY_int_indep e hi { iota := i, inConst := true, noFrame := first } _ hnum]
   have hcfg : ∀ r1, constCfgY F0 i (some (.i k)) e r1 =
       (evalY F0 { iota := i } none e).bind fun r2 => assignY F0 r2 (.i k) := by
     intro r1
     simp only [constCfgY]
-    rw [(evalY_ufrag_indep e hs { iota := i, inConst := true, pass2 := true, typedDecl := true } _ hnum).1]
-  rcases (evalY_int_rel { iota := i } rfl e hi hl).inv with ⟨n, gv, hr, hg, hinv⟩ | ⟨hr, hg⟩
+    rw [evalY_int_indep e hi { iota := i, inConst := true, pass2 := true, typedDecl := true } _ hnum]
+  rcases (evalY_int_rel { iota := i } rfl e hi).inv with ⟨n, gv, hr, hg, hinv⟩ | ⟨hr, hg⟩
   · have hg' : Spec.evalGo i e = .ok gv := hg
     have hr' : evalY F0 { iota := i } none e = .ok n := hr
     obtain ⟨hacc, hrej⟩ := assignY_cases n gv hinv k
@@ -218,5 +210,34 @@ theorem typed_const_decl_exact (i : Nat) (k : IKind) (e : CExpr) (hs : ufrag e =
     constructor
     · intro v hv; simp [Spec.declGo, hg'] at hv
     · intro _ first; rw [hgta, hr']; rfl
+
+/-- **`const c = e`**, any expression of the integer fragment: all three walks (the later ones with the type of the
+    first pushed down, literal operands keeping their first conversion, conversion operands their left-over type) and
+    the use agree with the specification -/
+theorem const_decl_stages (i : Nat) (e : CExpr) (hi : intShape e = true)
+    (v : CV × BT) (hgo : Spec.declGo i none e = .ok v) (first : Bool) :
+    ∃ n m, constGtaY F0 i first none e = .ok n ∧ constCfgY F0 i none e n = .ok m ∧ constUseY F0 m = .ok v := by
+  simp only [Spec.declGo] at hgo
+  obtain ⟨gv, hgv, hasg⟩ := bind_eq_ok hgo
+  obtain ⟨n, hn, hinv⟩ := evalY_int_correct { iota := i } rfl e hi gv hgv
+  have hnum : NumForced (some n.ty) := by
+    intro f hf; injection hf with hf; subst hf
+    rcases hinv.shape with ⟨ka, _, hka, _, hty, _⟩ | ⟨k2, _, _, hty, _, _⟩
+    · rw [hty]; rcases hka with rfl | rfl <;> rfl
+    · rw [hty]; rfl
+  have h1 := evalY_int_indep e hi { iota := i, inConst := true, noFrame := first } none (fun _ h => by cases h)
+  have h2 := evalY_int_indep e hi { iota := i, inConst := true, pass2 := true } (some n.ty) hnum
+  refine ⟨n, n, ?_, ?_, ?_⟩
+  · simp only [constGtaY, unmodelled_none]; rw [h1]; exact hn
+  · simp only [constCfgY]; rw [h2]; exact hn
+  · obtain ⟨cv, t⟩ := v
+    have ht : t = Spec.defaultGo gv.ty := assignGo_ty _ _ _ _ hasg
+    subst ht
+    rcases hinv.shape with ⟨ka, p, hka, rfl, hty, hrv⟩ | ⟨k2, p, rfl, hty, hrv, hp⟩
+    · simp only [constUseY, hty, Ty.untyped, if_true, defaultTypeY_int n _ hinv]
+      exact assign_materialise n _ hinv _ cv hasg (defaultGo_int _ n hinv)
+    · simp only [Spec.defaultGo, Spec.assignGo, beq_self_eq_true, if_true] at hasg
+      injection hasg with hasg; injection hasg with hcv _; subst hcv
+      simp [constUseY, hty, Ty.untyped, materialiseY, hrv, Spec.defaultGo]
 
 end YaegiVerif.Proofs.C03
